@@ -54,6 +54,120 @@ def nonnull(st, ptr):
     return False
 
 
+def concrete_classes(F):
+    return sorted(n for n, r in F.rec.items() if not r['abstract'] and not r.get('lambda')
+                  and (F.derives_from(n, 'ipr::Node') or any(a.startswith('ipr::Sequence<') for a in F.ancestors(n))
+                       or n.startswith('ipr::cxx_form::impl::') or any(a in ('ipr::Substitution', 'ipr::Capture', 'ipr::Capture_specification',
+                                                                              'ipr::Translation_unit', 'ipr::Module', 'ipr::Attribute', 'ipr::Lexeme') for a in F.ancestors(n))))
+
+
+def index_discipline(ck, F, S, conc, rid='C14.index-discipline'):
+    # ---------------------------------------------------------------- index discipline
+    R3 = ck.rule(rid, 'every Sequence::get overrider refuses an index outside [0, size()) with a logic error, or '
+                 'delegates to a checked accessor (at / another get)', floor=10)
+    bounded_gets = []
+    for cls in conc:
+        gets = [fo for fo in F.final_overrider_by_name(cls, 'get') if fo in F.fn and len(F.fn[fo]['params']) == 1]
+        for fid in gets:
+            f = F.fn[fid]
+            if not any(a.startswith('ipr::Sequence<') for a in F.ancestors(cls)):
+                continue
+            st = State()
+            o = st.new_obj(cls)
+            try:
+                outs = S.run(fid, this=o, args=[('param', 0)], state=st)
+            except Unsupported as e:
+                if 'loop' not in str(e):
+                    raise AnalysisBroken(f'{fid}: {e}')
+                # a positional walk written as a loop: explore it up to three steps (every path of that prefix is judged;
+                # the range test that matters precedes the walk)
+                Sb = Sym(F, opaque=S.opaque, max_depth=S.max_depth)
+                Sb.concrete_loops = True
+                Sb.loop_cut = 3
+                st = State()
+                o = st.new_obj(cls)
+                try:
+                    outs = Sb.run(fid, this=o, args=[('param', 0)], state=st)
+                except Unsupported as e2:
+                    raise AnalysisBroken(f'{fid}: {e2}')
+                bounded_gets.append(contracts.short(cls))
+            inst = contracts.short(cls) + '::get'
+            verdicts = []
+            for s2, k, v in outs:
+                if k == 'throw':
+                    verdicts.append(v in LOGIC_DERIVED)
+                    continue
+                def named(t, names):
+                    return isinstance(t, tuple) and t and t[0] in ('call', 'vcall') and contracts.fn_simple(t[1]) in names
+                subs = list(subterms(v))
+                for e in s2.effects:
+                    subs.extend(subterms(e))
+                has_at = any(named(t, ('at',)) and t[3] == (('param', 0),) for t in subs)
+                has_get = any(named(t, ('get',)) and t[3] == (('param', 0),) for t in subs)
+                raw = any(named(t, ('operator[]', 'advance', 'next')) or (isinstance(t, tuple) and t and t[0] == 'index') for t in subs)
+
+                def facts_of(conds):
+                    """(lhs, rhs, strict): lhs < rhs / lhs <= rhs known on the path, however the test was written."""
+                    out = []
+
+                    def visit(c, val):
+                        if not (isinstance(c, tuple) and c):
+                            return
+                        if c[0] == 'un' and c[1] == '!':
+                            return visit(c[2], not val)
+                        if c[0] == 'op' and ((c[1] == '||' and not val) or (c[1] == '&&' and val)):
+                            visit(c[2], val)
+                            visit(c[3], val)
+                            return
+                        if c[0] == 'op' and c[1] in ('<', '<=', '>', '>='):
+                            op, x, y = c[1], c[2], c[3]
+                            if not val:
+                                op = {'<=': '>', '<': '>=', '>=': '<', '>': '<='}[op]
+                            if op in ('>=', '>'):
+                                x, y, op = y, x, {'>=': '<=', '>': '<'}[op]
+                            out.append((x, y, op == '<'))
+                    for c, val in conds:
+                        visit(c, val)
+                    return out
+                guard_false = any(x == ('param', 0) and strict and any(named(t, ('size', 'distance')) for t in subterms(y))
+                                  for x, y, strict in facts_of(s2.conds))
+                single = any((c == ('op', '==', ('param', 0), ('k', 0, 'int')) and val is True)
+                             or (c == ('op', '!=', ('param', 0), ('k', 0, 'int')) and val is False) for c, val in s2.conds)
+                # a positional walk that ends by dereferencing an iterator: safe when the path condition says that very iterator
+                # is not the end of its sequence (compared with end() after the last step)
+                its = [t[2] for t in subterms(v) if isinstance(t, tuple) and len(t) >= 4 and t[0] == 'call' and contracts.fn_simple(t[1]) == 'operator*'
+                       and t[2] is not None and not t[3]]
+
+                def not_end(it):
+                    def flat(c, val):
+                        if isinstance(c, tuple) and c and c[0] == 'un' and c[1] == '!':
+                            yield from flat(c[2], not val)
+                        elif isinstance(c, tuple) and len(c) == 4 and c[0] == 'op' and ((c[1] == '&&' and val) or (c[1] == '||' and not val)):
+                            yield from flat(c[2], val)
+                            yield from flat(c[3], val)
+                        else:
+                            yield c, val
+                    for c0, v0 in s2.conds:
+                        for c, val in flat(c0, v0):
+                            if isinstance(c, tuple) and len(c) >= 4 and c[0] == 'call' and contracts.fn_simple(c[1]) in ('operator==', 'operator!=') and len(c[3]) == 2 \
+                                    and it in c[3] and any(named(a, ('end', 'cend')) for a in c[3]):
+                                if (contracts.fn_simple(c[1]) == 'operator==') != bool(val):
+                                    return True
+                    return False
+                iter_ok = bool(its) and all(not_end(it) for it in its)
+                if raw and not its:
+                    verdicts.append(guard_false)
+                elif its:
+                    verdicts.append(guard_false or iter_ok)
+                else:
+                    verdicts.append(has_at or has_get or single or guard_false)
+            ck.check(R3, inst, bool(verdicts) and all(verdicts),
+                     f'{fid}: some path indexes the backing store without a range test that throws '
+                     f'({[(k, contracts.render_conds(s2.conds, s2, {})[:60]) for s2, k, v in outs]})', loc=f['loc'], fn=fid)
+
+    return bounded_gets
+
+
 def run(ck, F):
     ck.explanation = (
         'Every public const member function of every concrete node / sequence class (final overriders and the inline '
@@ -225,84 +339,7 @@ def run(ck, F):
                     continue
                 ck.fail(R7, contracts.short(contracts.fn_qname(g['id'])) + ':unfilled', f'{g["id"]} builds a ref_sequence with unfilled slots', loc=g['loc'], fn=g['id'])
 
-    # ---------------------------------------------------------------- index discipline
-    R3 = ck.rule('C14.index-discipline', 'every Sequence::get overrider refuses an index outside [0, size()) with a logic error, or '
-                 'delegates to a checked accessor (at / another get)', floor=10)
-    bounded_gets = []
-    for cls in conc:
-        gets = [fo for fo in F.final_overrider_by_name(cls, 'get') if fo in F.fn and len(F.fn[fo]['params']) == 1]
-        for fid in gets:
-            f = F.fn[fid]
-            if not any(a.startswith('ipr::Sequence<') for a in F.ancestors(cls)):
-                continue
-            st = State()
-            o = st.new_obj(cls)
-            try:
-                outs = S.run(fid, this=o, args=[('param', 0)], state=st)
-            except Unsupported as e:
-                if 'loop' not in str(e):
-                    raise AnalysisBroken(f'{fid}: {e}')
-                # a positional walk written as a loop: explore it up to three steps (every path of that prefix is judged;
-                # the range test that matters precedes the walk)
-                Sb = Sym(F, opaque=S.opaque, max_depth=S.max_depth)
-                Sb.concrete_loops = True
-                Sb.loop_cut = 3
-                st = State()
-                o = st.new_obj(cls)
-                try:
-                    outs = Sb.run(fid, this=o, args=[('param', 0)], state=st)
-                except Unsupported as e2:
-                    raise AnalysisBroken(f'{fid}: {e2}')
-                bounded_gets.append(contracts.short(cls))
-            inst = contracts.short(cls) + '::get'
-            verdicts = []
-            for s2, k, v in outs:
-                if k == 'throw':
-                    verdicts.append(v in LOGIC_DERIVED)
-                    continue
-                def named(t, names):
-                    return isinstance(t, tuple) and t and t[0] in ('call', 'vcall') and contracts.fn_simple(t[1]) in names
-                subs = list(subterms(v))
-                for e in s2.effects:
-                    subs.extend(subterms(e))
-                has_at = any(named(t, ('at',)) and t[3] == (('param', 0),) for t in subs)
-                has_get = any(named(t, ('get',)) and t[3] == (('param', 0),) for t in subs)
-                raw = any(named(t, ('operator[]', 'advance', 'next')) or (isinstance(t, tuple) and t and t[0] == 'index') for t in subs)
-
-                def facts_of(conds):
-                    """(lhs, rhs, strict): lhs < rhs / lhs <= rhs known on the path, however the test was written."""
-                    out = []
-
-                    def visit(c, val):
-                        if not (isinstance(c, tuple) and c):
-                            return
-                        if c[0] == 'un' and c[1] == '!':
-                            return visit(c[2], not val)
-                        if c[0] == 'op' and ((c[1] == '||' and not val) or (c[1] == '&&' and val)):
-                            visit(c[2], val)
-                            visit(c[3], val)
-                            return
-                        if c[0] == 'op' and c[1] in ('<', '<=', '>', '>='):
-                            op, x, y = c[1], c[2], c[3]
-                            if not val:
-                                op = {'<=': '>', '<': '>=', '>=': '<', '>': '<='}[op]
-                            if op in ('>=', '>'):
-                                x, y, op = y, x, {'>=': '<=', '>': '<'}[op]
-                            out.append((x, y, op == '<'))
-                    for c, val in conds:
-                        visit(c, val)
-                    return out
-                guard_false = any(x == ('param', 0) and strict and any(named(t, ('size', 'distance')) for t in subterms(y))
-                                  for x, y, strict in facts_of(s2.conds))
-                single = any((c == ('op', '==', ('param', 0), ('k', 0, 'int')) and val is True)
-                             or (c == ('op', '!=', ('param', 0), ('k', 0, 'int')) and val is False) for c, val in s2.conds)
-                if raw:
-                    verdicts.append(guard_false)
-                else:
-                    verdicts.append(has_at or has_get or single or guard_false)
-            ck.check(R3, inst, bool(verdicts) and all(verdicts),
-                     f'{fid}: some path indexes the backing store without a range test that throws '
-                     f'({[(k, contracts.render_conds(s2.conds, s2, {})[:60]) for s2, k, v in outs]})', loc=f['loc'], fn=fid)
+    bounded_gets = index_discipline(ck, F, S, conc)
 
     # ---------------------------------------------------------------- throw sites
     R4 = ck.rule('C14.throw-types', 'every throw expression in the library constructs a type derived from std::logic_error', floor=15)
